@@ -25,6 +25,7 @@
 #include "hep/mc/multi_channel_summary.hpp"
 
 #include <cmath>
+#include <cstdio>
 #include <fstream>
 #include <iostream>
 #include <string>
@@ -130,8 +131,17 @@ public:
         if ((mode_ == callback_mode::silent_and_write_chkpt) ||
             (mode_ == callback_mode::verbose_and_write_chkpt))
         {
-            std::ofstream out(filename_);
+            // never truncate the previous checkpoint: write the new one next to it and replace the
+            // old file in a single step once the new one is complete
+            std::string const temporary = filename_ + ".tmp";
+            std::ofstream out(temporary);
             chkpt.serialize(out);
+            out.close();
+
+            if (out)
+            {
+                std::rename(temporary.c_str(), filename_.c_str());
+            }
         }
 
         return perform_more_iterations;
